@@ -273,10 +273,53 @@ func checkSentinelIdentity(c *Ctx) {
 	R.OK("R09.1", "run-path#deadline-sentinel-identity", 0, "", fmt.Sprintf("no identity comparison with os.ErrDeadlineExceeded on the run path (%d found)", n))
 }
 
+// checkLoggerResultAsError: on the inbound path no function returns, as its error, what a logging call returned. The module's
+// logging helpers return an error only as a convenience - nil with the default logger, a plain formatted error with a custom one:
+// neither is a skippable class, so the packet that should be skipped makes ReceiveProbe return (nil, nil) or a fatal error and one
+// crafted reply aborts the run.
+func checkLoggerResultAsError(c *Ctx) {
+	R := c.R
+	ir, _ := inboundRoots(c)
+	n := 0
+	for _, f := range ModReach(c.P, ir...) {
+		res := f.Signature.Results()
+		if res.Len() == 0 || !isErrorType(res.At(res.Len()-1).Type()) {
+			continue
+		}
+		for _, b := range f.Blocks {
+			ret, ok := b.Instrs[len(b.Instrs)-1].(*ssa.Return)
+			if !ok || len(ret.Results) == 0 {
+				continue
+			}
+			n++
+			var cands []ssa.Value
+			v := c.P.Def(ret.Results[len(ret.Results)-1])
+			if phi, ok := v.(*ssa.Phi); ok {
+				for _, e := range phi.Edges {
+					cands = append(cands, c.P.Def(e))
+				}
+			} else {
+				cands = append(cands, v)
+			}
+			for _, cv := range cands {
+				call, ok := cv.(*ssa.Call)
+				if !ok || call.Common().StaticCallee() == nil {
+					continue
+				}
+				if g := call.Common().StaticCallee(); core.InModule(g) && core.ShortPkg(core.FuncPkg(g)) == "log" {
+					R.Fail("R09.1", core.FuncName(f)+"#logger-result-as-error", ret.Pos(), core.FuncName(f), "the error returned here is what "+core.FuncName(g)+" returned: nil with the default logger (so the function reports no result and no error) or a plain error with a custom one - neither is a skippable class, so a packet that ought to be skipped aborts the run")
+				}
+			}
+		}
+	}
+	R.OK("R09.1", "inbound#logger-result-as-error", 0, "", fmt.Sprintf("%d returns on the inbound path, none hands back a logging call's result as the error", n))
+}
+
 // checkPremises verifies the facts the exception table relies on.
 func checkPremises(c *Ctx) {
 	R := c.R
 	checkSentinelIdentity(c)
+	checkLoggerResultAsError(c)
 	// (1) ReadAndParse: Parse is only called with n != 0 and a nil read error
 	f := c.P.Func("packets.ReadAndParse")
 	if f == nil {
